@@ -194,6 +194,9 @@ Fixpoint mon_fail_index (n : nat) (m : Z) (s : mon) (i : Z) (tr : list (cop * bh
                                                      ipv6 (1) counter
       | 13 ro k cls_1..cls_k flag_1..flag_k OBS     like 10 but through Swarm.filterKnownUndialables
                                                      (one request per dial, whatever the number of addresses)
+      | 14 ro cls succ OBS                           Swarm.dialAddr whose transport dial ended with success = succ
+                                                     (recorded like 11)
+      | 15 ro cls OBS                                Swarm.dialAddr that returned before any transport dial
    The two counters are shared by a read-write and a read-only detector, as in a
    real node (main swarm and the AutoNAT dialer swarm).
    cls = pub + 2*udp + 4*ip6 ; flag 1 = valid, 0 = black-holed;
@@ -216,7 +219,11 @@ Inductive dobs := DO (flags : list bool) (u v : cview).
 (* trace operations: the detector's own operations with the read-only flag of
    the detector they go through, plus a RecordResult issued directly on one of
    the shared counters *)
-Inductive top := TDet (ro : bool) (o : dop) | TDirect (ip6 : bool) (success : bool).
+Inductive top :=
+| TDet (ro : bool) (o : dop)
+| TDirect (ip6 : bool) (success : bool)
+| TNoDial.   (* Swarm.dialAddr returned without calling a transport (context already cancelled,
+                no transport for the address): no dial was made, so nothing may be recorded *)
 
 Definition decode_obs (l : list Z) : option (cview * cview * list Z) :=
   match l with
@@ -245,7 +252,7 @@ Fixpoint decode_dtrace (l : list Z) (fuel : nat) : option (list (top * dobs)) :=
               else None
           | None => None
           end
-        else if code =? 11 then
+        else if (code =? 11) || (code =? 14) then
           match r with
           | s :: r1 =>
               match decode_obs r1 with
@@ -257,6 +264,15 @@ Fixpoint decode_dtrace (l : list Z) (fuel : nat) : option (list (top * dobs)) :=
               | None => None
               end
           | _ => None
+          end
+        else if code =? 15 then
+          match decode_obs r with
+          | Some (u, v, r2) =>
+              match decode_dtrace r2 f with
+              | Some t => Some ((TNoDial, DO [] u v) :: t)
+              | None => None
+              end
+          | None => None
           end
         else if code =? 12 then
           match decode_obs r with
@@ -306,6 +322,7 @@ Definition tstep (p : pair) (o : top) : pair * dobs :=
     | TDirect w b =>
         (if w then (fst p, option_map (fun c => record_result c b) (snd p))
          else (option_map (fun c => record_result c b) (fst p), snd p), [])
+    | TNoDial => (p, [])
     end in
   (p', DO fl (cview_of (fst p')) (cview_of (snd p'))).
 
@@ -346,11 +363,53 @@ Fixpoint monitor_det (u v : cview) (i : Z) (tr : list (top * dobs)) : list Z :=
       (* read-only: the detector's own operations never change any state *)
       let frozen :=
         match o with
-        | TDet true _ => cview_eqb u u' && cview_eqb v v'
+        | TDet true _ | TNoDial => cview_eqb u u' && cview_eqb v v'
         | _ => true
         end in
       if ok && frozen then monitor_det u' v' (i + 1) r
       else [ERR_PROPERTY; i; fst u; fst v; fst u'; fst v'; boolz ok; boolz frozen]
+  end.
+
+(* ---- "one request in every N is let through as a probe", at detector level ----
+   [k] = true: the UDP counter, false: the IPv6 counter.  A FilterAddrs call on a
+   read-write detector is a request on counter k iff it names a public address of
+   kind k.  It is a *pure* request when every public address it names is of kind
+   k only, and it is *refused* when all of them come back black-holed.  In a
+   blocked period never [n] consecutive pure requests are refused: requests that
+   do not involve the counter (private-only peers, the other kind, read-only
+   detectors) must not use up the probe slot. *)
+Definition akind (k : bool) (a : addr) : bool := if k then a_udp a else a_ip6 a.
+Definition aother (k : bool) (a : addr) : bool := if k then a_ip6 a else a_udp a.
+
+Definition involves (k : bool) (l : list addr) : bool :=
+  existsb (fun a => a_pub a && akind k a) l.
+
+Definition pure_kind (k : bool) (l : list addr) : bool :=
+  existsb a_pub l &&
+  forallb (fun a => negb (a_pub a) || (akind k a && negb (aother k a))) l.
+
+Definition all_pub_removed (l : list addr) (fl : list bool) : bool :=
+  forallb (fun af : addr * bool => negb (a_pub (fst af)) || negb (snd af)) (combine l fl).
+
+Fixpoint probe_run (k : bool) (n : nat) (sb : Z) (run : nat) (i : Z) (tr : list (top * dobs)) : list Z :=
+  match tr with
+  | [] => []
+  | (o, DO fl u' v') :: r =>
+      let s' := fst (if k then u' else v') in
+      match o with
+      | TDet false (DFilter l) =>
+          if involves k l then
+            if pure_kind k l && (sb =? 2) && all_pub_removed l fl then
+              if Nat.ltb (S run) n then probe_run k n s' (S run) (i + 1) r
+              else [ERR_PROPERTY; i; 77; boolz k; Z.of_nat (S run); Z.of_nat n]
+            else probe_run k n s' 0 (i + 1) r
+          else probe_run k n s' run (i + 1) r
+      | TDet false (DRecord a b) =>
+          probe_run k n s' (if a_pub a && akind k a && b then 0%nat else run) (i + 1) r
+      | TDirect w b =>
+          probe_run k n s' (if Bool.eqb w (negb k) && b then 0%nat else run) (i + 1) r
+      | _ => probe_run k n s' run (i + 1) r
+      end
   end.
 
 Definition mk_counter_opt (n m : Z) : option counter :=
@@ -383,7 +442,14 @@ Definition monitor_case (l : list Z) : list Z :=
   | 1 :: un :: um :: vn :: vm :: r =>
       match decode_dtrace r (S (length r)) with
       | Some tr =>
-          monitor_det (cview_of (mk_counter_opt un um)) (cview_of (mk_counter_opt vn vm)) 0 tr
+          match monitor_det (cview_of (mk_counter_opt un um)) (cview_of (mk_counter_opt vn vm)) 0 tr with
+          | [] =>
+              match probe_run true (Z.to_nat un) (fst (cview_of (mk_counter_opt un um))) 0 0 tr with
+              | [] => probe_run false (Z.to_nat vn) (fst (cview_of (mk_counter_opt vn vm))) 0 0 tr
+              | d => d
+              end
+          | d => d
+          end
       | None => [ERR_MALFORMED; 2]
       end
   | _ => [ERR_MALFORMED; 3]
